@@ -252,7 +252,7 @@ pub fn run_c16(a: &Args) {
     }
     // ---- tiny probabilities over many seeds (arithmetic on huge skips)
     let base3 = 30_000;
-    let tiny_seeds: u64 = if a.thorough { 40_000 } else { 3_000 };
+    let tiny_seeds: u64 = if a.thorough { 100_000 } else { 20_000 };
     let mut cfg3 = 0u64;
     for &n in &[3i32, 30, 300] {
         for &p in &[1e-9, 3e-10, 1e-10] {
